@@ -438,6 +438,8 @@ class ASTRewriter(ast.NodeTransformer):
             raise Exception("Len only receives one argument")
 
         args = self.__unroll_arg(node.args[0])
+        if len(args) == 1 and args[0] is node.args[0]:
+            raise Exception("len() argument has not a known size")
         return ast.Constant(value=len(args))
 
     def __call_minmax(self, node):
